@@ -3,10 +3,11 @@
   fields and the operations the machine-code generator emits for them are
   GENERATED from src/lir/mod.rs and src/codegen/mod.rs, target `c12instr`).
 
-  `shapeOf` and `roles` are exhaustive matches over the generated `Kind`: a new
-  instruction kind does not compile until it is classified here; a new or
-  renamed field, or a changed field type, breaks `instr_kinds_classified`
-  (Props/C12.lean); a codegen arm that starts to store / copy / call breaks
+  `shapeOf` and `roles` are table lookups that send every kind the tables do not
+  list to `unclassified` / `[]`:
+  a new instruction kind, a new or renamed field, or a changed field type
+  breaks `instr_kinds_classified` (Props/C12.lean), and the driver answers
+  `bad-kind` for every real instruction of such a kind; a codegen arm that starts to store / copy / call breaks
   `codegen_ops_match_model`.
 
   Core Lean only.
@@ -21,6 +22,7 @@ open RotoV.Conc.Lir RotoV.Gen.C12Instr
 inductive Shape
   | nop | ret | assign | constAddr | funcAddr | initString | call | callRt | arith | offset
   | initBytes | write | read | copy | clone | eq | drop
+  | unclassified   -- a kind of the generated list that nobody has classified yet
   deriving DecidableEq, Repr
 
 def Shape.of : Instr → Shape
@@ -42,25 +44,18 @@ def Shape.of : Instr → Shape
   | .ret .. => .ret
   | .nop => .nop
 
-/-- which model instruction a source instruction kind is checked as -/
-def shapeOf : Kind → Shape
-  | .kJump | .kSwitch => .nop
-  | .kReturn => .ret
-  | .kAssign => .assign
-  | .kConstantAddress => .constAddr
-  | .kFunctionAddress => .funcAddr
-  | .kInitString => .initString
-  | .kCall => .call
-  | .kCallRuntime => .callRt
-  | .kIntCmp | .kFloatCmp | .kAdd | .kSub | .kMul | .kDiv | .kMod | .kFDiv | .kNot | .kNegate => .arith
-  | .kOffset => .offset
-  | .kInitialize => .initBytes
-  | .kWrite => .write
-  | .kRead => .read
-  | .kCopy => .copy
-  | .kClone => .clone
-  | .kEq => .eq
-  | .kDrop => .drop
+/-- which model instruction a source instruction kind is checked as (a table,
+not a `match`: a kind the table does not list is `unclassified`) -/
+def shapeTable : List (Kind × Shape) :=
+  [(.kJump, .nop), (.kSwitch, .nop), (.kReturn, .ret), (.kAssign, .assign),
+   (.kConstantAddress, .constAddr), (.kFunctionAddress, .funcAddr), (.kInitString, .initString),
+   (.kCall, .call), (.kCallRuntime, .callRt),
+   (.kIntCmp, .arith), (.kFloatCmp, .arith), (.kAdd, .arith), (.kSub, .arith), (.kMul, .arith),
+   (.kDiv, .arith), (.kMod, .arith), (.kFDiv, .arith), (.kNot, .arith), (.kNegate, .arith),
+   (.kOffset, .offset), (.kInitialize, .initBytes), (.kWrite, .write), (.kRead, .read),
+   (.kCopy, .copy), (.kClone, .clone), (.kEq, .eq), (.kDrop, .drop)]
+
+def shapeOf (k : Kind) : Shape := (shapeTable.lookup k).getD .unclassified
 
 /-- the role of a field of an instruction for the provenance checker -/
 inductive Role
@@ -72,31 +67,37 @@ inductive Role
   | immediate      -- not a variable: type, label, name, function pointer, size, literal bytes
   deriving DecidableEq, Repr
 
-def roles : Kind → List (Field × Role)
-  | .kJump => [(.f_0, .immediate)]
-  | .kSwitch => [(.f_examinee, .readOnly), (.f_branches, .immediate), (.f_default, .immediate)]
-  | .kAssign => [(.f_to, .defines), (.f_val, .readOnly), (.f_ty, .immediate)]
-  | .kConstantAddress => [(.f_to, .defines), (.f_name, .immediate)]
-  | .kFunctionAddress => [(.f_to, .defines), (.f_name, .immediate)]
-  | .kInitString => [(.f_to, .writesThrough), (.f_string, .immediate), (.f_init_func, .immediate)]
-  | .kCall => [(.f_to, .defines), (.f_ctx, .readOnly), (.f_func, .immediate), (.f_args, .handed),
-               (.f_return_ptr, .retPtr)]
-  | .kCallRuntime => [(.f_func, .immediate), (.f_args, .handed)]
-  | .kReturn => [(.f_0, .readOnly)]
-  | .kIntCmp | .kFloatCmp =>
-      [(.f_to, .defines), (.f_cmp, .immediate), (.f_left, .readOnly), (.f_right, .readOnly)]
-  | .kAdd | .kSub | .kMul | .kFDiv => [(.f_to, .defines), (.f_left, .readOnly), (.f_right, .readOnly)]
-  | .kDiv | .kMod =>
-      [(.f_to, .defines), (.f_signed, .immediate), (.f_left, .readOnly), (.f_right, .readOnly)]
-  | .kNot | .kNegate => [(.f_to, .defines), (.f_val, .readOnly)]
-  | .kOffset => [(.f_to, .defines), (.f_from, .readOnly), (.f_offset, .immediate)]
-  | .kInitialize => [(.f_to, .writesThrough), (.f_bytes, .immediate), (.f_layout, .immediate)]
-  | .kWrite => [(.f_to, .writesThrough), (.f_val, .readOnly)]
-  | .kRead => [(.f_to, .defines), (.f_from, .readOnly), (.f_ty, .immediate)]
-  | .kCopy => [(.f_to, .writesThrough), (.f_from, .readOnly), (.f_size, .immediate)]
-  | .kClone => [(.f_to, .writesThrough), (.f_from, .readOnly), (.f_clone_fn, .immediate)]
-  | .kEq => [(.f_to, .defines), (.f_left, .readOnly), (.f_right, .readOnly), (.f_eq_fn, .immediate)]
-  | .kDrop => [(.f_var, .writesThrough), (.f_drop, .immediate)]
+def roleTable : List (Kind × List (Field × Role)) :=
+  [
+   (.kJump, [(.f_0, .immediate)]),
+   (.kSwitch, [(.f_examinee, .readOnly), (.f_branches, .immediate), (.f_default, .immediate)]),
+   (.kAssign, [(.f_to, .defines), (.f_val, .readOnly), (.f_ty, .immediate)]),
+   (.kConstantAddress, [(.f_to, .defines), (.f_name, .immediate)]),
+   (.kFunctionAddress, [(.f_to, .defines), (.f_name, .immediate)]),
+   (.kInitString, [(.f_to, .writesThrough), (.f_string, .immediate), (.f_init_func, .immediate)]),
+   (.kCall, [(.f_to, .defines), (.f_ctx, .readOnly), (.f_func, .immediate), (.f_args, .handed), (.f_return_ptr, .retPtr)]),
+   (.kCallRuntime, [(.f_func, .immediate), (.f_args, .handed)]),
+   (.kReturn, [(.f_0, .readOnly)]),
+   (.kIntCmp, [(.f_to, .defines), (.f_cmp, .immediate), (.f_left, .readOnly), (.f_right, .readOnly)]),
+   (.kFloatCmp, [(.f_to, .defines), (.f_cmp, .immediate), (.f_left, .readOnly), (.f_right, .readOnly)]),
+   (.kAdd, [(.f_to, .defines), (.f_left, .readOnly), (.f_right, .readOnly)]),
+   (.kSub, [(.f_to, .defines), (.f_left, .readOnly), (.f_right, .readOnly)]),
+   (.kMul, [(.f_to, .defines), (.f_left, .readOnly), (.f_right, .readOnly)]),
+   (.kFDiv, [(.f_to, .defines), (.f_left, .readOnly), (.f_right, .readOnly)]),
+   (.kDiv, [(.f_to, .defines), (.f_signed, .immediate), (.f_left, .readOnly), (.f_right, .readOnly)]),
+   (.kMod, [(.f_to, .defines), (.f_signed, .immediate), (.f_left, .readOnly), (.f_right, .readOnly)]),
+   (.kNot, [(.f_to, .defines), (.f_val, .readOnly)]),
+   (.kNegate, [(.f_to, .defines), (.f_val, .readOnly)]),
+   (.kOffset, [(.f_to, .defines), (.f_from, .readOnly), (.f_offset, .immediate)]),
+   (.kInitialize, [(.f_to, .writesThrough), (.f_bytes, .immediate), (.f_layout, .immediate)]),
+   (.kWrite, [(.f_to, .writesThrough), (.f_val, .readOnly)]),
+   (.kRead, [(.f_to, .defines), (.f_from, .readOnly), (.f_ty, .immediate)]),
+   (.kCopy, [(.f_to, .writesThrough), (.f_from, .readOnly), (.f_size, .immediate)]),
+   (.kClone, [(.f_to, .writesThrough), (.f_from, .readOnly), (.f_clone_fn, .immediate)]),
+   (.kEq, [(.f_to, .defines), (.f_left, .readOnly), (.f_right, .readOnly), (.f_eq_fn, .immediate)]),
+   (.kDrop, [(.f_var, .writesThrough), (.f_drop, .immediate)])]
+
+def roles (k : Kind) : List (Field × Role) := (roleTable.lookup k).getD []
 
 /-- a role fits the type class of the field it is given to -/
 def roleFits : Role → FieldTy → Bool
@@ -113,7 +114,8 @@ def roleFits : Role → FieldTy → Bool
 names in the same order, and every field that can carry a variable has a
 non-immediate role of a fitting type -/
 def kindClassified (k : Kind) : Bool :=
-  (roles k).map (·.1) == (fields k).map (·.1)
+  shapeOf k != .unclassified
+  && (roles k).map (·.1) == (fields k).map (·.1)
   && ((roles k).zip (fields k)).all (fun p => roleFits p.1.2 p.2.2)
 
 /-- what the checker demands of an instruction, by roles -/
@@ -134,6 +136,7 @@ def shapeSummary : Shape → Summary
   | .initString | .initBytes | .write | .copy | .clone | .drop => ⟨false, 1, false⟩
   | .call => ⟨true, 1, true⟩
   | .callRt => ⟨false, 0, true⟩
+  | .unclassified => ⟨true, 1, true⟩
 
 /-! the same three notions on the model's instructions -/
 
